@@ -253,7 +253,7 @@ def _cases_for(args):
 
 def enumerate_selection(chk, P, kmax, perm_max, stats):
     cls = P.cls(MOD, "Multi_Range_Potential_Form")
-    site = cls.lookup("_range_search").site()
+    site = cls.site_of("_range_search")
     jobs = [(k, ranks, perm_max) for k in range(1, kmax + 1) for ranks in weak_orderings(k)]
     _WORKER["P"] = P
     if chk.tier == "thorough":
@@ -330,13 +330,13 @@ def potable_default(chk, P):
     desc = PyObjV(Node("potential_description", {"potential_label": Const("as.zero"), "potential_parameters": ListV([], "list")}))
     res = I.call(I.getattr(cp, "_descend_tree"), [I.call(ExtV("builtins.iter"), [ListV([desc], "list")], {})], {})
     ok = isinstance(res, NTV) and res.values[res.cls.fields.index("start")] is d
-    chk.ob("C08.O4", "definition without marker gets the default range", ok, site=cp_cls.lookup("_descend_tree").site(), found=res,
+    chk.ob("C08.O4", "definition without marker gets the default range", ok, site=cp_cls.site_of("_descend_tree"), found=res,
            expect="start = default range", key="C08.O4|no-marker")
     rs = PyObjV(Node("range_start", {"range_type": Const(">="), "start": Num(ep.const(5))}))
     res = I.call(I.getattr(cp, "_descend_tree"), [I.call(ExtV("builtins.iter"), [ListV([rs, desc], "list")], {})], {})
     st = res.values[res.cls.fields.index("start")] if isinstance(res, NTV) else None
     ok = isinstance(st, NTV) and st.cls.fields == ["range_type", "start"] and st.values[0].v == ">=" and st.values[1].const() == 5
-    chk.ob("C08.O4", "a leading marker binds (range_type, start) in that order", ok, site=cp_cls.lookup("_descend_tree").site(), found=st,
+    chk.ob("C08.O4", "a leading marker binds (range_type, start) in that order", ok, site=cp_cls.site_of("_descend_tree"), found=st,
            expect="('>=', 5)", key="C08.O4|marker")
     # 3. builder: Multi_Range_Defn(range_type, start, form)
     b_cls = P.cls("atsim.potentials.config._potential_form_builder", "Potential_Form_Builder")
@@ -360,7 +360,7 @@ def potable_default(chk, P):
         got = (I.getattr(mr, "range_type"), I.getattr(mr, "start"))
     ok = got is not None and isinstance(got[0], Const) and got[0].v == ">=" and isinstance(got[1], Num) and got[1].const() == 5
     chk.ob("C08.O4", "builder passes (marker, start) to Multi_Range_Defn in its parameter order", ok,
-           site=b_cls.lookup("_make_multi_range_tuple").site(), found=got if got is not None else mr, expect="('>=', 5)",
+           site=b_cls.site_of("_make_multi_range_tuple"), found=got if got is not None else mr, expect="('>=', 5)",
            key="C08.O4|builder")
     # 3b. the public builder entry point on whole definitions: a form or a modifier, alone or followed by further ranges, acts
     #     only from its own range start (0 below it) - also when the definition consists of that single part
